@@ -2,5 +2,9 @@ CONSTANTS
   Dev = {}
   Big = TRUE
 SPECIFICATION Spec
+INVARIANT PlainIsUncompressed
+INVARIANT PlainImpliesSkip
+INVARIANT PlainRecordAgrees
+INVARIANT NewRuleStricterP
 INVARIANT EmitCodec
 CHECK_DEADLOCK FALSE
